@@ -23,7 +23,9 @@ import impl_c14 as base
 import random
 
 import xsdata.formats.dataclass.models.elements as elements_module
-from sched_trace import LineScheduler, MarkError, SchedulerTimeout, locate, locate_all, locate_mutators
+import xsdata.formats.dataclass.parsers.bases as bases_module
+import xsdata.formats.dataclass.parsers.dict as dict_module
+from sched_trace import LineScheduler, MarkError, SchedulerTimeout, locate, locate_all, locate_stores
 
 
 class Shared:
@@ -74,54 +76,76 @@ def main():
     # lines of context.py, random schedules, no model: the oracle is the solo result
     free = []
     if inp.get("free_runs"):
-        files = {elements_module.__file__: locate_all(elements_module.__file__)}
-        if table is not None:
-            files[path] = table
+        # (get_subclasses / is_binding_model walk every class of the process: thread-local, thousands of lines)
+        files = {m.__file__: locate_all(m.__file__, exclude=("__init__", "get_subclasses", "is_binding_model", "get_builder"))
+                 for m in (elements_module, context_module, dict_module)}
         for run in inp["free_runs"]:
             solo = [base.run_op(prepared(ops, run["warm"]), ops[i]) for i in run["threads"]]
             inst = prepared(ops, run["warm"])
-            sched = LineScheduler(files, step_timeout=inp.get("step_timeout", 10.0))
+            fp0 = base.shared_fingerprint(inst)
+            sched = LineScheduler(files, step_timeout=inp.get("step_timeout", 10.0), lazy=True)
             fns = [(lambda i=i: base.run_op(inst, ops[i])) for i in run["threads"]]
             try:
                 results, steps = sched.run_random(fns, random.Random(run["seed"]))
                 status = "ok"
             except SchedulerTimeout as e:
                 results, steps, status = [None] * len(fns), len(sched.log), "timeout: " + str(e)
-            free.append({"results": results, "solo": solo, "steps": steps, "status": status})
-    # systematic exploration: yield points on the lines of the self-mutating methods of XmlMeta / XmlVar only (few
-    # steps), two threads, every schedule "A runs k1 steps, B runs k2 steps, [A one step,] B resp. A completes"
+            free.append({"results": results, "solo": solo, "steps": steps, "status": status,
+                         "inst_changed": base.shared_fingerprint(inst) != fp0})
+    # systematic exploration: a thread parks immediately before every statement that stores into state reachable
+    # from `self` (outside constructors) in models/elements.py, context.py, parsers/dict.py, parsers/bases.py, and at
+    # the first line it reaches after such a statement.  Two threads A, B: every schedule with ONE preemption
+    # (A runs k steps, B runs to completion, A completes; and with the roles swapped), then sampled schedules
+    # with two ("A k1 steps, B k2 steps, A completes, B completes" / "..., A one step, B completes, A completes")
     systematic, mutators = [], []
     if inp.get("sys_runs"):
-        mtable, mutators = locate_mutators(elements_module.__file__)
-        files = {elements_module.__file__: mtable}
+        files = {}
+        for m in (elements_module, context_module, dict_module, bases_module):
+            t_, st_ = locate_stores(m.__file__)
+            files[m.__file__] = t_
+            mutators += [list(x) for x in st_]
         for run in inp["sys_runs"]:
             a, b = run["threads"]
             solo = [base.run_op(prepared(ops, run["warm"]), ops[i]) for i in (a, b)]
+            changed = []
 
             def one(schedule):
                 inst = prepared(ops, run["warm"])
-                sched = LineScheduler(files, step_timeout=inp.get("step_timeout", 10.0))
+                fp0 = base.shared_fingerprint(inst)
+                sched = LineScheduler(files, step_timeout=inp.get("step_timeout", 10.0), store_window=True, lazy=True)
                 fns = [(lambda i=i: base.run_op(inst, ops[i])) for i in (a, b)]
-                return sched.run(fns, schedule)
+                out_ = sched.run(fns, schedule)
+                if base.shared_fingerprint(inst) != fp0:
+                    changed.append(schedule)
+                return out_
 
-            rec = {"solo": solo, "explored": 0, "bad": [], "status": "ok", "steps": [0, 0]}
+            rec = {"solo": solo, "explored": 0, "bad": [], "status": "ok", "steps": [0, 0], "inst_changed": []}
             try:
+                # how many yield points each thread passes when it goes FIRST (the second one finds lazily built
+                # state ready and passes fewer); +1: with lazy start the first release only starts the thread
                 _, log = one([])
-                na, nb = sum(1 for t, _ in log if t == 0), sum(1 for t, _ in log if t == 1)
+                _, log_b = one([1] * 100000)
+                na, nb = sum(1 for t, _ in log if t == 0) + 1, sum(1 for t, _ in log_b if t == 1) + 1
                 rec["steps"] = [na, nb]
-                scheds = []
+                rng = random.Random(run["seed"])
+                big = 4 * (na + nb) + 200        # "to completion": a thread preempting a cold one does more than in the sequential run
+                first = [[0] * k + [1] * big for k in range(0, na + 1)] + [[1] * k + [0] * big for k in range(1, nb + 1)]
+                if len(first) > run["max"]:
+                    first = rng.sample(first, run["max"])
+                second = []
                 for k1 in range(0, na + 1):
                     for k2 in range(1, nb + 1):
-                        scheds.append([0] * k1 + [1] * k2)                            # then A completes, then B
-                        scheds.append([0] * k1 + [1] * k2 + [0] + [1] * nb)           # A one step, B completes, then A
-                rng = random.Random(run["seed"])
-                if len(scheds) > run["max"]:
-                    scheds = rng.sample(scheds, run["max"])
-                for sc in scheds:
+                        second.append([0] * k1 + [1] * k2)
+                        second.append([0] * k1 + [1] * k2 + [0] + [1] * big)
+                room = max(run["max"] - len(first), run["max"] // 2)
+                if len(second) > room:
+                    second = rng.sample(second, room)
+                for sc in first + second:
                     results, _ = one(sc)
                     rec["explored"] += 1
                     if results != solo and len(rec["bad"]) < 3:
                         rec["bad"].append({"schedule": sc, "results": results})
+                rec["inst_changed"] = changed[:2]
             except SchedulerTimeout as e:
                 rec["status"] = "timeout: " + str(e)
             systematic.append(rec)
